@@ -1,11 +1,11 @@
 CONSTANTS
-  MaxA = 3
-  Budget = 2
+  MaxA = 2
+  Budget = 1
   MaxLoop = 10
-  HasTry = FALSE
+  HasTry = TRUE
   Behaviours = {"ok", "5xx", "close", "never", "connfail"}
-  Defects = {"NoDeadlineCheck"}
+  Defects = {"NoCleanUpOnRetryAbort"}
 SPECIFICATION Spec
 INVARIANTS AtMostOneReply NoFallOut EndsProperly GaugeExact AttemptsBound RetriesReturned RetriesBounded
-PROPERTIES NoAttemptAfterReply
+PROPERTIES NoAttemptAfterReply RefinesAbs
 CHECK_DEADLOCK TRUE
